@@ -140,6 +140,36 @@ Proof.
     apply rc_triple_is_iff in T. exfalso. apply Hn. exact T.
 Qed.
 
+Definition mq_spec2 (spec : list (route Z)) (between : hp_op) : list (route Z) :=
+  match between with
+  | HRegister d l u owner => match rs_add spec d l u owner with Some sp => sp | None => spec end
+  | HUnRegister d l u => rs_del spec d l u
+  | _ => spec
+  end.
+
+Lemma mq_hsim_reg_step st spec btw : mq_hsim (hp_routes st) spec ->
+  mq_hsim (hp_routes (hp_reg_step st btw)) (mq_spec2 spec btw).
+Proof.
+  intro Hsim. destruct btw; cbn [hp_reg_step mq_spec2]; try exact Hsim.
+  - pose proof (mq_hsim_add_none _ spec d l u (mkRc d l u owner (hp_seq st + 1) []) Hsim) as Hn. simpl in Hn.
+    destruct (rt_add (hp_routes st) d l u (mkRc d l u owner (hp_seq st + 1) [])) as [rs|] eqn:A.
+    + pose proof (mq_hsim_add _ _ _ _ _ _ _ Hsim A) as Hsim'. simpl in Hsim'.
+      unfold rs_add in *. destruct (existsb _ spec).
+      * exfalso. assert (Some rs = None) by (apply Hn; reflexivity). discriminate.
+      * exact Hsim'.
+    + destruct (rs_add spec d l u owner) as [sp|] eqn:B; [|exact Hsim].
+      exfalso. assert (Some sp = None) by (apply Hn; reflexivity). discriminate.
+  - simpl. apply mq_hsim_del. exact Hsim.
+Qed.
+
+Lemma mq_roundtrip_routes st routed key rid dialed st' out :
+  hp_roundtrip st routed key rid dialed = Some (st', out) -> hp_routes st' = hp_routes st.
+Proof.
+  unfold hp_roundtrip. destruct dialed.
+  - destruct routed; intro H; inversion H; subst; reflexivity.
+  - destruct (hp_take key (hp_idle st)) as [[c i]|]; intro H; inversion H; subst; reflexivity.
+Qed.
+
 Lemma mq_model_passes_http script : Forall hq_plain_op script -> forall st spec,
   hq_inv st -> mq_hsim (hp_routes st) spec ->
   C06_holds_http spec (mq_trace_http st script) = true.
@@ -175,6 +205,19 @@ Proof.
     { apply (hq_traffic_routes [HEnd rid]); [constructor; [exact I|constructor]|].
       simpl. simpl in S. rewrite S. reflexivity. }
     apply IH; [exact Hinv'|]. rewrite Hr. exact Hsim.
+  - (* overtaken request: it reaches the owner routed in [st]; the monitor continues with the route set
+       after the overtaking operation *)
+    pose proof (hq_raced_spec _ _ _ _ _ _ _ _ _ _ _ Hinv S) as E.
+    assert (Eo : out = hp_spec_out (fun z : Z => z) spec host path user).
+    { rewrite E. unfold hp_spec_out. destruct Hsim as [Hwf Hs].
+      rewrite <- (rq_refines (hp_routes st) _ path user Hwf).
+      rewrite (mq_hsim_best (hp_routes st) spec _ path user (conj Hwf Hs)).
+      destruct (rt_get_vhost (hp_routes st) (rt_canon_or_empty host) path user); reflexivity. }
+    change (((hp_out_eqb out (hp_spec_out (fun z : Z => z) spec host path user) ||
+              hp_out_eqb out (hp_spec_out (fun z : Z => z) (mq_spec2 spec btw) host path user)) &&
+             C06_holds_http (mq_spec2 spec btw) (mq_trace_http st' script)) = true).
+    rewrite <- Eo at 1. rewrite mq_out_refl. simpl. apply IH; [exact Hinv'|].
+    cbn [hp_step] in S. rewrite (mq_roundtrip_routes _ _ _ _ _ _ _ S). apply mq_hsim_reg_step. exact Hsim.
   - assert (Hr : hp_routes st' = hp_routes st).
     { apply (hq_traffic_routes [HConnect chost cuser]); [constructor; [exact I|constructor]|].
       simpl. simpl in S. rewrite S. reflexivity. }
